@@ -22,6 +22,8 @@ def tasks(tier, seed):
 def extra(led, tier, seed):
     from contracts import douglas
     led.extend(douglas.init_params_table())
+    from contracts import dtype_native
+    led.extend(dtype_native.predict_dtypes(seed, only=("Douglas",)))
     led.assume("A1", "A2", "A3", "A4", "A8", "A5: softmax contract (positive entries summing to 1 per row)",
                "L9: with logit differences (x - c_(j))/T, as T -> 0 the arg-max bin of a sample is the number of cut points below its value, "
                "so predictions become constant on the cells of the grid drawn by the cut points (stated consequence of the proved identity)",
